@@ -1082,8 +1082,11 @@ Library read_gds(const char* filename, double unit, double tolerance, const Set<
                 break;
             case GdsiiRecord::RAITHPXXDATA:
                 if (path) {
-                    PXXData pxxdata;
-                    memcpy(&pxxdata, buffer + 4, record_length);
+                    PXXData pxxdata = {};
+                    // record_length includes the 4-byte record header
+                    uint64_t pxx_size = record_length - 4;
+                    if (pxx_size > sizeof(PXXData)) pxx_size = sizeof(PXXData);
+                    memcpy(&pxxdata, buffer + 4, pxx_size);
                     path->raith_data.from_pxxdata(pxxdata);
                 }
                 break;
